@@ -579,7 +579,7 @@ pub fn parse_date_yymmdd(input: &str) -> Result<NaiveDate, ParseError> {
 
 /// Parse date in YYYYMMDD format
 pub fn parse_date_yyyymmdd(input: &str) -> Result<NaiveDate, ParseError> {
-    if input.len() != 8 {
+    if input.len() != 8 || !input.is_ascii() {
         return Err(ParseError::InvalidFormat {
             message: format!(
                 "Date must be in YYYYMMDD format (8 digits), found {} characters",
@@ -645,7 +645,7 @@ pub fn parse_time_hhmm(input: &str) -> Result<NaiveTime, ParseError> {
 
 /// Parse datetime in YYMMDDHHMM format
 pub fn parse_datetime_yymmddhhmm(input: &str) -> Result<NaiveDateTime, ParseError> {
-    if input.len() != 10 {
+    if input.len() != 10 || !input.is_ascii() {
         return Err(ParseError::InvalidFormat {
             message: format!(
                 "DateTime must be in YYMMDDHHMM format (10 digits), found {} characters",
@@ -709,6 +709,12 @@ pub fn normalize_text(input: &str) -> String {
 /// Validate IBAN format
 pub fn validate_iban(iban: &str) -> Result<(), ParseError> {
     // Basic IBAN validation (simplified)
+    if !iban.is_ascii() {
+        return Err(ParseError::InvalidFormat {
+            message: "IBAN must consist of letters and digits".to_string(),
+        });
+    }
+
     if iban.len() < 15 || iban.len() > 34 {
         return Err(ParseError::InvalidFormat {
             message: format!(
